@@ -31,6 +31,8 @@ func scenarios(tier string) []svc.Scenario {
 		// a cached stream is queued again (new match of the tag) and extended while that job waits
 		{Name: "converter-requeue-then-extension", Converter: true, Program: []string{"import:P1", "addtag:tag/p=cport:1", "converters:tag/p=conv", "import:P2", "import:P3"}},
 		{Name: "converter", Converter: true, Program: []string{"import:P1", "addtag:tag/p=cport:1", "converters:tag/p=conv", "import:P3", "converters:tag/p="}},
+		// two tags wait for evaluation at the same time: which one the service takes first is an explored choice
+		{Name: "two-tags", Program: []string{"addtag:tag/p=cport:1", "addtag:tag/d=cdata:foo3", "import:P1", "import:P3"}},
 	}
 	if tier == "thorough" {
 		sc = append(sc,
@@ -42,6 +44,16 @@ func scenarios(tier string) []svc.Scenario {
 			svc.Scenario{Name: "converter-reattach", Converter: true, Program: []string{"import:P1", "addtag:tag/p=cport:1", "converters:tag/p=conv", "import:P3", "converters:tag/p=", "import:P2", "converters:tag/p=conv"}},
 			svc.Scenario{Name: "restart", Program: []string{"import:P1", "addtag:tag/d=cdata:foo", "import:P2", "restart", "import:P3", "view.open:v1"}},
 		)
+	}
+	if only := os.Getenv("VERIF_ONLY_SCENARIO"); only != "" {
+		// development aid: the evidence of such a run names the filter
+		var f []svc.Scenario
+		for _, x := range sc {
+			if strings.Contains(","+only+",", ","+x.Name+",") {
+				f = append(f, x)
+			}
+		}
+		sc = f
 	}
 	return sc
 }
@@ -71,7 +83,7 @@ func Run(prop, tier string) int {
 		}
 		r.Report(violationOf(sc, path, v))
 	})
-	var states, trans, drains int64
+	var states, trans, drains, pickPoints, forced int64
 	outcomes := 0
 	complete := true
 	var caps, samples []string
@@ -80,12 +92,14 @@ func Run(prop, tier string) int {
 		states += r.st.States
 		trans += r.st.Transitions
 		drains += r.st.DrainSteps
+		pickPoints += r.st.PickPoints
+		forced += r.st.ForcedPicks
 		outcomes += len(r.st.Quiescent)
 		if !r.st.Complete {
 			complete = false
 			caps = append(caps, r.name+": "+r.st.CapHit)
 		}
-		perScenario[r.name] = map[string]any{"states": r.st.States, "transitions": r.st.Transitions, "max_depth": r.st.MaxDepth, "quiescent_outcomes": len(r.st.Quiescent), "complete": r.st.Complete}
+		perScenario[r.name] = map[string]any{"states": r.st.States, "transitions": r.st.Transitions, "max_depth": r.st.MaxDepth, "tag_pick_points": r.st.PickPoints, "quiescent_outcomes": len(r.st.Quiescent), "complete": r.st.Complete}
 		for _, s := range r.st.Samples {
 			if len(samples) < 10 {
 				samples = append(samples, r.name+": "+s)
@@ -94,6 +108,10 @@ func Run(prop, tier string) int {
 	}
 	if states < 20 {
 		mc.Fatal("vacuous exploration: %d states", states)
+	}
+	if only := os.Getenv("VERIF_ONLY_SCENARIO"); only != "" {
+		complete = false
+		caps = append(caps, "development run restricted to scenarios "+only)
 	}
 	code := 0
 	for _, p := range Props {
@@ -107,6 +125,11 @@ func Run(prop, tier string) int {
 		cv["rule"] = "explicit-state search over every interleaving of a client program (API calls in program order) with the steps of the real background jobs (import, tagging, merge, conversion; two gates each) on the real manager; histories reaching the same canonical service state are merged; every state is obtained by replaying its history on a fresh service; in every state the invariants of C06/C10/C13/C16 are evaluated, then the parked jobs are drained (C09) and the quiescent state is judged again; non-trivial = every state (each has at least one job parked or one API call pending against shared tags/indexes)"
 		cv["scenarios"] = perScenario
 		cv["drain_steps"] = drains
+		cv["tag_pick_points"] = pickPoints
+		cv["tag_pick_histories_forced"] = forced
+		if only := os.Getenv("VERIF_ONLY_SCENARIO"); only != "" {
+			cv["scenario_filter"] = only
+		}
 		cv["distinct_outcomes"] = outcomes
 		cv["samples"] = samples
 		cv["exhaustive"] = complete
